@@ -87,7 +87,10 @@ def net_cfg(net: dict, **over) -> dict:
             extra["field_of_view"] = {"fov_shape": "conic", "cone_angle": 60.0} if s["id"] % 2 else {"fov_shape": "rectangular", "azimuth_angle": 60.0, "elevation_angle": 60.0}
         if s["kind"] == "optical":
             extra["detectable_vismag"] = 30.0
-        scfgs.append(sk.ground_sensor_cfg(s["id"], s["lat"], s["lon"], kind=s["kind"], **extra))
+        sc = sk.ground_sensor_cfg(s["id"], s["lat"], s["lon"], kind=s["kind"], **extra)
+        if s.get("cov_scale"):  # per-sensor measurement noise (sensors of one type need not share it)
+            sc["sensor"]["covariance"] = [[v * float(s["cov_scale"]) for v in row] for row in sc["sensor"]["covariance"]]
+        scfgs.append(sc)
     metrics = {"SimpleSummationReward": ("TimeSinceObservation", "ShannonInformation"),
                "CostConstrainedReward": ("ShannonInformation", "LyapunovStability", "SlewTimeMinimization"),
                "CombinedReward": ("ShannonInformation", "LyapunovStability", "SlewTimeMinimization", "TimeSinceObservation")}[net["reward"]]
